@@ -245,9 +245,9 @@ theorem attrEvents_explicit (cls : Cls) (hn : (cls.fields.map (·.name)).Nodup) 
       = (if f.factory then [factoryId f] else []) ++ (if f.conv then [convId f] else []) := by
   unfold C02.attrEvents
   cases hfac : f.factory
-  · cases hc : f.conv <;> simp [toAttr, hfac, hc, C02.ev, convId] <;> split <;> simp
+  · cases hc : f.conv <;> simp [toAttr, hfac, hc, C02.ev, convId, convEventsOf] <;> split <;> simp
   · have hp := passed_factory_none cls hn f hf hfac (params A)
-    cases hc : f.conv <;> simp [toAttr, hfac, hc, C02.ev, convId, factoryId, hp]
+    cases hc : f.conv <;> simp [toAttr, hfac, hc, C02.ev, convId, factoryId, hp, convEventsOf]
 
 theorem beforePart_explicit (cls : Cls) (hn : (cls.fields.map (·.name)).Nodup) :
     beforePart cls = (if cls.pre = .none then [] else [preId]) ++
